@@ -227,7 +227,7 @@ def constant_case(draw):
         rows = rows[::-1]
     elif order == "permuted":
         rows = list(draw(st.permutations(rows)))
-    req = draw(_requests(n, allow_scalar=False))
+    req = draw(_requests(n, allow_scalar=True))
     drop = draw(st.sampled_from([True, True, False]))
     inp_form = draw(st.sampled_from(["dataframe", "data", "dataset"]))
     direct_dtype = draw(st.sampled_from(["float32", "float64"]))
